@@ -55,8 +55,7 @@ def run(ctx):
         "(NodesCoord!Consistent); new/inactive/jailed infos may concern any key",
         "lists handed to the shuffler and leaving lists are compared as bags (their order is not C16's business)",
         "R1 bounds: 3 keys x {shard 0, metachain} (thorough also 3 shards, rater class) for the exhaustive step, 4 keys / "
-        "%d epochs with <= %d status changes per epoch for the multi-epoch model; minimum list sizes 1"
-        % (2 if q else 3, 1 if q else 2),
+        "%d epochs with <= 1 status change per epoch for the multi-epoch model; minimum list sizes 1" % (2 if q else 3),
         "a mismatch between the real coordinator and the specification's prediction is drift unless an Inv_C16 "
         "invariant fails on the observed state")
     exe = ctx.go_build("vh-nodescoord")
@@ -105,7 +104,7 @@ def run(ctx):
         return
     # ---- R1 + R2: several epochs
     ok = gen_replay("deep", dict(BASE, spec="GenDeepSpec", keys="1, 2, 3, 4", fix="2", maxepoch=2 if q else 3,
-                                 maxch=1 if q else 2, depth=12, log="LogAppend", mod=3 if q else 6,
+                                 maxch=1, depth=14, log="LogAppend", mod=3 if q else 8,
                                  rest="ACTION_CONSTRAINT EmitSome"), every=10 if q else 100)
     if not ok:
         return
